@@ -8,6 +8,8 @@ without a unit switch after `set_resolution` (the resolution the oracle uses is 
 Correspondence: stage 2 of tracer_common.Stage (recorded samples -> model filter -> emitted words, exact) plus the
 sample grid (`num_segments`, thetas) and the resolution conversion of `set_length_units` (bit-exact).
 Oracle (independent of the model): measured segment lengths of the reconstructed vertices.
+Configuration dimension: an isometry installed on the builder's transformer before the program starts (tracer_common.gen_iso);
+the property is about emitted segment lengths, which an isometry leaves unchanged.
 """
 from __future__ import annotations
 
@@ -89,6 +91,12 @@ def oracle(case: dict, impl: dict, half: dict | None) -> list[tuple[str, str]]:
         lo = L / (1.1 * res + tseg) - 1
         if not (lo <= n <= hi):
             out.append(("count", f"{n} segments for a path of length {L:.6g} at resolution {res:.6g}: expected between {lo:.1f} and {hi:.1f}"))
+    if case.get("iso"):
+        # the lengths above were measured on the emitted coordinates as they are (an isometry keeps every length);
+        # the chord error is a distance to the requested circle, which lives in work coordinates: bring the emitted
+        # vertices back with the harness's own matrix of the configured operations (orthogonal linear part)
+        M = tc.iso_matrix(case["iso"])
+        V = (V - M[:3, 3]) @ M[:3, :3]
     if c is None and case["shape"] == "arc_radius":
         from .c10 import _arc_radius_centre
 
@@ -103,8 +111,50 @@ def oracle(case: dict, impl: dict, half: dict | None) -> list[tuple[str, str]]:
     return out
 
 
+class Stage(tc.Stage):
+    """tracer_common.Stage; for a request traced under an isometry the model (which has no transformer) receives the
+    recorded samples - work coordinates, what the tracer itself filtered - and its moves are compared with the emitted
+    words after the harness's own matrix of the configured operations: same number of moves (the filter's decisions)
+    and every word within half a unit of the last printed decimal."""
+
+    def _cmp_filter(self, case, impl, rec, stride):
+        if not case.get("iso"):
+            return super()._cmp_filter(case, impl, rec, stride)
+        R = self.R
+        cr = tc.case_repr(case)
+        f = tc.fields(rec)
+        if tc.unbits(f["margin"]) < 1e-9 * impl["res_eff"]:
+            R.count("skip:filter-decision-margin")
+            return
+        mw = tc.parse_q3_list(f.get("words", ""))
+        iw = impl["words"]
+        name = "tracer-filter-emit-isometry"
+        if impl["outcome"] != "ok":
+            R.disagree("tracer-outcome", cr, impl["outcome"], "ok")
+            return
+        if len(mw) != len(iw):
+            R.disagree(name, cr, f"{len(iw)} moves", f"{len(mw)} moves")
+            return
+        if any(set(w) != {"X", "Y", "Z"} for w in iw):
+            k = next(i for i, w in enumerate(iw) if set(w) != {"X", "Y", "Z"})
+            R.disagree(name, cr, f"move {k}: words {sorted(iw[k])}", "X Y Z", step=k)
+            return
+        M = tc.iso_matrix(case["iso"])
+        W = np.array([[float(v) for v in m] for m in mw], dtype=np.float64).reshape(-1, 3)
+        want = W @ M[:3, :3].T + (0.0 if case["rel"] else M[:3, 3])  # relative words are differences: linear part only
+        got = np.array([[float(w[ax]) for ax in "XYZ"] for w in iw], dtype=np.float64).reshape(-1, 3)
+        sc = max(tc.scale_of(case), float(np.abs(M[:3, 3]).max()), float(np.abs(got).max()) if len(got) else 1.0)
+        tol = 0.5 * 10.0 ** (-case["dp"]) + 1e-9 * sc
+        dev = np.abs(got - want)
+        if len(dev) and float(dev.max()) > tol:
+            k = int(dev.max(axis=1).argmax())
+            R.disagree(name, cr, f"move {k} {got[k].tolist()}", f"{want[k].tolist()} (model move {[float(v) for v in mw[k]]} under the isometry)", step=k)
+            return
+        R.count("stage2:emit-agree-isometry")
+
+
 def run_batch(R, cases, label, correspond=True):
-    st = tc.Stage(R, PROP)
+    st = Stage(R, PROP)
     for case in cases:
         impl = tc.run_impl(case)
         half = tc.run_impl(case, res_override=case["res"] / 2) if impl["outcome"] == "ok" and case["shape"] != "polyline" and not case.get("nohalf") else None
@@ -122,6 +172,11 @@ def run_batch(R, cases, label, correspond=True):
             "L/res:" + ("<1" if ratio < 1 else "1e%d" % math.floor(math.log10(max(ratio, 1)))),
             "outcome:" + impl["outcome"],
         )
+        if case.get("iso"):
+            R.count(
+                "isometry:" + ("reflecting" if tc.iso_reflecting(case["iso"]) else "proper"),
+                "isometry-ops:" + "+".join(sorted({op[0] for op in case["iso"]})),
+            )
         for tag, msg in oracle(case, impl, half):
             R.fail(tc.case_repr(case), msg, tag=tag)
         if correspond:
@@ -163,16 +218,46 @@ def gen(R, n, hi, cap):
     return cases
 
 
+# configuration: an isometry active on the builder's transformer while the shape is traced (left-hand twin of a part, a part
+# laid out at an angle, ...).  Lengths are unchanged by it, so every clause applies to the emitted program as it is.
+ISO_CORPUS = [
+    {"shape": "arc", "cw": False, "rel": False, "start": [10.0, 0.0, 0.0], "res": 0.25, "units": "mm", "dp": 6, "target": [0.0, 10.0, None], "center": [-10.0, 0.0],
+     "iso": [["mirror", "yz"]]},
+    {"shape": "circle", "cw": True, "rel": True, "start": [12.5, 4.0, -1.0], "res": 0.05, "units": "in", "dp": 6, "center": [-3.0, 4.0],
+     "iso": [["rotate", 30.0, "x"], ["flip", [1.0, -1.0]]]},
+    {"shape": "thread", "cw": False, "rel": False, "start": [2.0, -1.0, 0.5], "res": 0.2, "units": "mm", "dp": 5, "target": [-6.0, 5.0, 3.0], "pitch": 1.0,
+     "iso": [["pivot", [1.0, 2.0, 0.0]], ["rotate", -90.0, "z"], ["translate", [5.0, 0.0, -2.0]]]},
+]
+
+
+def gen_iso(R, n):
+    """requests of every shape (moderate path / resolution: the dimension exercised is the transformer), each under 1-3
+    random length-preserving operations (tracer_common.gen_iso), about half of them orientation reversing"""
+    shapes = ["arc", "circle", "arc_radius", "helix", "thread", "arc", "spiral", "circle", "spline", "arc_radius", "parametric", "helix"]
+    cases = []
+    for i in range(n):
+        c = tc.gen_case(R.rng, shapes[i % len(shapes)], ratio=(0.5, 1.8), max_samples=1500)
+        # `warm_near` positions the tool with move_absolute, which bypasses the transformer by design: under a transform
+        # the program would then contain a jump between two frames that is not part of any traced shape
+        c.pop("warm_near", None)
+        c["iso"] = tc.gen_iso(R.rng)
+        cases.append(c)
+    return cases
+
+
 def run(R: core.Run):
     R.rule = (
         "tracer requests (arc, arc_radius, circle, helix incl. constant radius, thread, spiral, spline, user parametric) each traced "
         "at res and res/2; res = 10^U(-3,1); path/res = 10^U(0.5, 2.0), every 12th up to 10^2.7 (thorough: every 16th up to 10^4); {mm, in} with and without a unit "
-        "switch after set_resolution; both directions and distance modes; non-trivial = accepted and >= 4 segments; distinct by hash"
+        "switch after set_resolution; both directions and distance modes; plus requests of every shape traced while an isometry is active on "
+        "the builder's transformer (1-3 of mirror / reflect / rotate / sign-flipping scale, optional pivot and translation; about half "
+        "orientation reversing), path/res = 10^U(0.5, 1.8); non-trivial = accepted and >= 4 segments; distinct by hash"
     )
     R.assumptions = [
         "segment lengths are measured on vertices re-read from the emitted G-code (rounded to decimal_places: tolerance 2*10^-dp)",
         "bounds are relative to g.state.resolution at trace time; a unit switch leaves that number unchanged (checked bit-exactly against the model)",
         "the lower bound / count / sagitta clauses are evaluated for radius >= 1.2 resolution (below that the chord is much shorter than its arc)",
+        "under an isometry of the transformer the length clauses are evaluated on the emitted coordinates as they are; the chord error after mapping the emitted vertices back with the harness's own matrix of the configured operations; the model (no transformer) receives the recorded work-coordinate samples and its moves are compared after the same matrix (half a unit of the last decimal)",
     ]
     R.trusted = [
         "Lean 4.33 kernel; axioms propext, Classical.choice, Quot.sound only (audited per theorem)",
@@ -187,9 +272,13 @@ def run(R: core.Run):
     cases = gen(R, n, 2.7 if not R.thorough else 4.0, 9000 if not R.thorough else 110000)
     for k in range(0, len(cases), 150):
         run_batch(R, cases[k : k + 150], "random")
+    run_batch(R, [dict(c) for c in ISO_CORPUS], "corpus-isometry")
+    cases = gen_iso(R, R.n(48, 400))
+    for k in range(0, len(cases), 150):
+        run_batch(R, cases[k : k + 150], "random-isometry")
     if R.broken:
         R.search_batches += 1
-        run_batch(R, gen(R, R.n(300, 1500), 2.0, 5000), "search", correspond=False)
+        run_batch(R, gen(R, R.n(300, 1500), 2.0, 5000) + gen_iso(R, R.n(40, 200)), "search", correspond=False)
     return {}, {}
 
 
@@ -204,7 +293,7 @@ def replay(data):
     half = tc.run_impl(case, res_override=case["res"] / 2) if impl["outcome"] == "ok" and case["shape"] != "polyline" and not case.get("nohalf") else None
     msgs = oracle(case, impl, half)
     R = core.Run(PROP, "quick", 0)
-    st = tc.Stage(R, PROP)
+    st = Stage(R, PROP)
     st.add(case, impl, stage1=(case["shape"] not in tc.CURVED))
     st.run()
     V = tc.verts_array(impl)
